@@ -9,6 +9,7 @@ use core_lang::syntax::{
     terms::*,
 };
 use core_lang::traits::*;
+use printer::Print;
 
 use crate::context::shrink_context;
 use crate::names::shrink_identifier;
@@ -180,10 +181,18 @@ fn lift(statement: FsStatement, state: &mut ShrinkingState) -> Rc<axcut::syntax:
         });
     }
 
-    let label = fresh_identifier(
-        state.max_id,
-        &("lift_".to_string() + state.current_label + "_"),
-    );
+    let base_name = "lift_".to_string() + state.current_label + "_";
+    let mut label = fresh_identifier(state.max_id, &base_name);
+    // the printed form of the new label must not coincide with the name of another top-level
+    // function (a user can write names like `lift_main__7`)
+    while state
+        .used_labels
+        .iter()
+        .any(|used| used.print_to_string(None) == label.print_to_string(None))
+    {
+        label = fresh_identifier(state.max_id, &base_name);
+    }
+    state.used_labels.insert(label.clone());
     let context = shrink_context(context.into(), state.codata);
     // we substitute the fresh variables for the free ones in the body
     let body = statement.subst_sim(&subst).shrink(state);
